@@ -35,14 +35,14 @@ func init() {
 
 func c12Mapping() seq.Mapping {
 	return seq.Mapping{
-		"kw": seq.NewSingleType(seq.TokenizerTypeKeyword, "", 0),
-		"tx": seq.NewSingleType(seq.TokenizerTypeText, "", 0),
-		"pa": seq.NewSingleType(seq.TokenizerTypePath, "", 0),
-		"ex": seq.NewSingleType(seq.TokenizerTypeExists, "", 0),
-		"ob": seq.NewSingleType(seq.TokenizerTypeObject, "", 0),
-		"tg": seq.NewSingleType(seq.TokenizerTypeTags, "", 0),
-		"ne": seq.NewSingleType(seq.TokenizerTypeNested, "", 0),
-		"mt": {Main: seq.MappingType{TokenizerType: seq.TokenizerTypeText}, All: []seq.MappingType{{Title: "mt", TokenizerType: seq.TokenizerTypeText}, {Title: "mt.keyword", TokenizerType: seq.TokenizerTypeKeyword, MaxSize: 18}}},
+		"kw":         seq.NewSingleType(seq.TokenizerTypeKeyword, "", 0),
+		"tx":         seq.NewSingleType(seq.TokenizerTypeText, "", 0),
+		"pa":         seq.NewSingleType(seq.TokenizerTypePath, "", 0),
+		"ex":         seq.NewSingleType(seq.TokenizerTypeExists, "", 0),
+		"ob":         seq.NewSingleType(seq.TokenizerTypeObject, "", 0),
+		"tg":         seq.NewSingleType(seq.TokenizerTypeTags, "", 0),
+		"ne":         seq.NewSingleType(seq.TokenizerTypeNested, "", 0),
+		"mt":         {Main: seq.MappingType{TokenizerType: seq.TokenizerTypeText}, All: []seq.MappingType{{Title: "mt", TokenizerType: seq.TokenizerTypeText}, {Title: "mt.keyword", TokenizerType: seq.TokenizerTypeKeyword, MaxSize: 18}}},
 		"mt.keyword": seq.NewSingleType(seq.TokenizerTypeKeyword, "mt.keyword", 18),
 		// multi-type field whose default (text) type is not listed first
 		"mr":         {Main: seq.MappingType{TokenizerType: seq.TokenizerTypeText}, All: []seq.MappingType{{Title: "mr.keyword", TokenizerType: seq.TokenizerTypeKeyword, MaxSize: 18}, {Title: "mr", TokenizerType: seq.TokenizerTypeText}}},
